@@ -151,6 +151,9 @@ func (e *Eval) args(f *ast.Field) map[string]interface{} {
 				}
 			}
 		}
+		if l, isList := v.([]interface{}); isList && l == nil {
+			v = []interface{}{} // gqlparser yields a nil slice for the literal []
+		}
 		out[a.Name] = v
 	}
 	return out
@@ -177,10 +180,7 @@ func (e *Eval) field(o objRef, f *ast.Field, sub ast.SelectionSet) (interface{},
 	case o.obj == nil:
 		stored = e.Data.Roots[o.root][f.Name]
 		if o.root == "Mutation" {
-			e.Data.Counters[f.Name]++
-			if ftype != nil && ftype.Name() == "Int" && ftype.Elem == nil {
-				stored = Val{Kind: "scalar", Scalar: e.Data.Counters[f.Name]}
-			}
+			e.Data.Counters[f.Name]++ // bookkeeping only: how often a mutation root field was executed
 		}
 	case f.Name == "id" && o.obj.ID != "":
 		return o.obj.ID, true
